@@ -7,6 +7,8 @@ import (
 	"errors"
 	"fmt"
 	"io"
+	"os"
+	"path/filepath"
 	"reflect"
 	"strings"
 	"testing"
@@ -55,6 +57,7 @@ var templates = []string{
 	`FS = {S}`, `RS = {S}`, `OFS = {s}`, `ORS = {S}`, `SUBSEP = {S}`, `CONVFMT = {S}`, `OFMT = {S}`, `x = 0.1 ""`, `print 0.1, 1e300, 17`, `$3 = "z"; print`, `$1 = $1`,
 	`x = ({S} ~ {S})`, `x = ($0 ~ {S})`, `x = match({S}, {S})`, `x = match($0, {S}) RSTART RLENGTH`, `sub({S}, {S}, t)`, `gsub({S}, {s}, t)`, `gsub({S}, {s})`, `gsub({S}, "&&\\&", $0)`, `gsub(//, {s})`, `sub({S}, {S}, $({N}))`, `gsub({S}, {s}, a[{N}])`,
 	`INPUTMODE = {M}`, `OUTPUTMODE = {M}`, `getline`, `getline x`, `getline < "/nonexistent/file"`, `getline x < {S}`, `getline $({N})`, `getline a[{N}]`, `getline $({N}) < {S}`, `{S} | getline`, `while ((getline line) > 0) if (++cnt > 100) break`,
+	`getline x < DATAFILE`, `getline < DATAFILE`, `getline $({N}) < DATAFILE`, `while ((getline line < DATAFILE) > 0) if (++cnt > 100) break`, `close(DATAFILE)`, `getline a[{N}] < DATAFILE`,
 	`close({S})`, `fflush({S})`, `fflush()`, `x = @{S}`, `x = @"name"`, `x = @$1`, `x = length()`, `x = length({S})`, `x = index({S}, {S})`, `x = tolower({S}) toupper({S})`,
 	`x = f({N})`, `x = g({N})`, `x = g({k})`, `x = h({N}, a)`, `x = m1({k})`, `r(arr, {k})`, `x = deep({N})`,
 	`RSTART = {N}; RLENGTH = {N}`, `NR = {N}`, `FNR = {N}`, `FILENAME = {S}`, `ENVIRON[{S}] = {S}`, `ARGV[{N}] = {S}`, `ARGV[1] = {S}; ARGC = 2`,
@@ -193,7 +196,16 @@ type result struct {
 	out      string
 }
 
+// one real, readable file per worker process: an input stream that opens successfully (and can be left open at the end of a run)
+var dataFile = func() string {
+	dir := h.TempDir("c02data")
+	p := filepath.Join(dir, "data.txt")
+	os.WriteFile(p, []byte("d1 1\nd2 2\nd3,3\n\"q\",4\n"), 0o644)
+	return p
+}()
+
 func mkConfig(c Cfg, input []byte, out io.Writer) *interp.Config {
+	c.Vars = append(append([]string{}, c.Vars...), "DATAFILE", dataFile)
 	cfg := &interp.Config{Stdin: sandbox.NewChunkReader(input, sandbox.Chunking(len(input), c.Chunk)), Output: out, Error: io.Discard, Argv0: "goawk", Chars: c.Chars, Vars: c.Vars, Args: c.Args,
 		NoExec: true, NoFileWrites: true, NoFileReads: c.NoReads, Environ: []string{"HOME", "/"}, NewlineOutput: interp.NewlineMode(c.Newline)}
 	switch c.Mode {
@@ -407,12 +419,12 @@ func runNamed(x *h.Ctx, c Named) string {
 // ---------------------------------------------------------------- byte-level inputs x configuration matrix
 
 type ByteCase struct {
-	Prog  int      `json:"prog"`
-	Input h.Str    `json:"input"`
-	Pad   int      `json:"pad"` // the input is preceded by this many filler bytes (to move it to a buffer edge)
-	RS    h.Str    `json:"rs"`
-	FS    h.Str    `json:"fs"`
-	Cfg   Cfg      `json:"cfg"`
+	Prog  int   `json:"prog"`
+	Input h.Str `json:"input"`
+	Pad   int   `json:"pad"` // the input is preceded by this many filler bytes (to move it to a buffer edge)
+	RS    h.Str `json:"rs"`
+	FS    h.Str `json:"fs"`
+	Cfg   Cfg   `json:"cfg"`
 }
 
 var probes = []string{
